@@ -4,7 +4,7 @@
    Specification: Spec/C12Spec.v (EmitsAt / EmitsIn, evident_type, expect_ty, sites, oracle, classes). *)
 From Coq Require Import String Ascii List Arith Bool.
 Require Import TT.Model.Str TT.Spec.TsLex TT.Spec.TsModule TT.Spec.TsObs TT.Model.Pipeline TT.Model.Events TT.Spec.C12Spec.
-Require Import TT.Proofs.C12Proofs TT.Proofs.C12Exact TT.Proofs.C12Payload TT.Proofs.C12Parse TT.Proofs.C12Lex TT.Proofs.C12Prefix.
+Require Import TT.Proofs.C12Proofs TT.Proofs.C12Exact TT.Proofs.C12Payload TT.Proofs.C12Parse TT.Proofs.C12Lex TT.Proofs.C12Prefix TT.Proofs.C12Legal TT.Proofs.C12Full TT.Proofs.C12Names.
 Require Import TT.Model.TypeParse TT.Model.Render TT.Spec.C05Spec TT.Proofs.TypeParseProofs.
 Import ListNotations.
 
@@ -151,6 +151,43 @@ Theorem C12_payload_text_custom : forall n, ident n -> idstr n -> prim_of n = No
   payload_ts n = L "types." ++ n.
 Proof. exact payload_ts_custom. Qed.
 
+(* THE COMPOSITION. For every in-domain project outside the classes that also satisfies the boolean
+   side condition payload_dom (for every documented site the payload text the model renders - after
+   type_mappings - has one of the two token shapes and denotes the expected type of the site), the
+   oracle has NO complaint about the files the model generates: walker exactness, legal event names
+   (from in_domain), one listener per name, text -> tokens -> items -> records, and every per-record
+   check of the oracle compose. *)
+Theorem C12_full : forall p, in_domain p = true -> kf_project p = false -> payload_dom p = true -> model_complaints p = [].
+Proof. exact full_on_payload_dom. Qed.
+(* every documented event name of an in-domain project is over the legal alphabet *)
+Theorem C12_sites_legal : forall p, in_domain p = true -> forall s, In s (project_sites p) -> legal_event_name (s_name s) = true.
+Proof. exact project_sites_legal. Qed.
+(* The same with the side condition reduced to payload type NAMES, using the absence of the payload
+   classes (C12_payload_site's analysis: outside the classes a payload is the unit value, non-evident, or
+   has a plain named type whose name the tool inferred): no mapping for the name `unknown`, no
+   struct expression with an empty path, and every inferred payload type name N satisfies name_ok -
+   its rendered text after type_mappings has one of the two shapes and denotes the translation of N. *)
+Theorem C12_full_names : forall p, in_domain p = true -> kf_project p = false -> names_dom p = true -> model_complaints p = [].
+Proof. exact full_on_names_dom. Qed.
+(* name_ok holds for every primitive Rust name under every mapping, and for every unmapped custom name
+   that is an identifier, not a TypeScript builtin, not a container name and not `listen` *)
+Theorem C12_name_ok_prim : forall mp n p, prim_ts n = Some p -> name_ok mp n = true.
+Proof. exact name_ok_prim. Qed.
+Theorem C12_name_ok_custom : forall mp n, ident n -> idstr n -> prim_of n = None -> builtin n = false -> prim_ts n = None ->
+  container n = false -> lookup n mp = None -> is_ts_identifier n = true -> str_eqb n (L "listen") = false -> name_ok mp n = true.
+Proof. exact name_ok_custom. Qed.
+(* the same at the level of one events.ts text, for any site list and mapping *)
+Theorem C12_oracle_accepts_text : forall mp ss ix,
+  forallb (fun s => legal_event_name (s_name s) && site_payload_ok mp s) ss = true ->
+  (forall n, In n (site_names ss) -> kf_collision (site_names ss) n = false) -> ss <> [] ->
+  oracle_m mp ss (Some (events_text (map_events mp (map ev_of ss)))) ix = [].
+Proof. intros mp ss ix H1 H2 H3. exact (oracle_text_ok mp ss H1 H2 ix H3). Qed.
+(* The remaining gap to C12_full_statement, NOT asserted (and false without name hygiene): names_dom follows from in_domain and the
+   absence of the payload classes under name hygiene (type names are identifiers that are neither
+   TypeScript builtins, nor container names without arguments, nor `listen`; mapping targets likewise). *)
+Definition C12_names_dom_statement : Prop :=
+  forall p, in_domain p = true -> kf_project p = false -> names_dom p = true.
+
 (* ---- non-vacuity ---- *)
 Definition clean_body : list stmt := [
   SLet (PTyped (L "q") (T0 "Progress")) (Some (XCall (V "make") []));
@@ -183,6 +220,13 @@ Example C12_ex_lex_link :
   map r_ty (model_recs (project_events clean_project)) =
     [PCustom (L "Progress"); PCustom (L "Progress"); PCustom (L "Progress"); PCustom (L "Progress"); PPrim (L "number"); PPrim (L "void")].
 Proof. vm_compute. repeat split; reflexivity. Qed.
+Definition mapped_project : project :=
+  {| p_files := p_files clean_project; p_has_command := true; p_mappings := [(L "Progress", L "string"); (L "Other", L "number")] |}.
+Example C12_ex_full_dom : names_dom clean_project = true /\ payload_dom clean_project = true /\ payload_dom (mk1 worker_body true) = false /\
+  in_domain mapped_project = true /\ kf_project mapped_project = false /\ names_dom mapped_project = true /\
+  map ml_payload (model_listeners (map_events (p_mappings mapped_project) (project_events mapped_project))) =
+    [L "string"; L "string"; L "string"; L "string"; L "number"; L "void"].
+Proof. repeat split; vm_compute; reflexivity. Qed.
 Example C12_ex_emits_in : EmitsIn clean_body (L "in-else") (XRef (V "p")).
 Proof.
   eapply EI_expr; [right; left; reflexivity|]. apply EA_else. apply EA_block.
@@ -234,3 +278,9 @@ Print Assumptions C12_events_tokens_parse.
 Print Assumptions C12_lex_statement.
 Print Assumptions C12_events_text_parses.
 Print Assumptions C12_payload_text_custom.
+Print Assumptions C12_full.
+Print Assumptions C12_sites_legal.
+Print Assumptions C12_full_names.
+Print Assumptions C12_name_ok_prim.
+Print Assumptions C12_name_ok_custom.
+Print Assumptions C12_oracle_accepts_text.
